@@ -10,10 +10,11 @@ import (
 )
 
 type Clause struct {
-	Label string
-	Expr  *SExpr
-	Src   string
-	Line  int
+	Label      string
+	Expr       *SExpr
+	Src        string
+	Line       int
+	SafetyOnly bool // sensures / safetyinv: proved and used in safety mode only
 }
 
 type LoopSpec struct {
@@ -60,7 +61,7 @@ type ContractSet struct {
 	Files      []string
 }
 
-var clauseKw = regexp.MustCompile(`^(func|iface|callback|spawn|fieldassume|fieldinv|revent|event|step|uses|assumes|assume|requires|ensures|modifies|loop|invariant|decreases|unroll|trusted|props|safety|noinline|global-invariant|lemma|typeinv|end)\b`)
+var clauseKw = regexp.MustCompile(`^(func|iface|callback|spawn|fieldassume|fieldinv|safetyinv|sensures|srequires|revent|event|step|uses|assumes|assume|requires|ensures|modifies|loop|invariant|decreases|unroll|trusted|props|safety|noinline|global-invariant|lemma|typeinv|end)\b`)
 
 // LoadContracts reads //@ comment blocks from the given files.
 func LoadContracts(files ...string) (*ContractSet, error) {
@@ -155,7 +156,7 @@ func (cs *ContractSet) loadFile(path string) error {
 				return err
 			}
 			cs.Lemmas = append(cs.Lemmas, c)
-		case "fieldinv", "fieldassume":
+		case "fieldinv", "fieldassume", "safetyinv":
 			idx := strings.Index(r.text, ":")
 			if idx < 0 {
 				return fmt.Errorf("%s:%d: fieldinv needs 'Struct.field: expr'", path, r.line)
@@ -168,7 +169,7 @@ func (cs *ContractSet) loadFile(path string) error {
 			if r.kw == "fieldassume" {
 				cs.FieldAsms[fn] = append(cs.FieldAsms[fn], Clause{Expr: e, Src: strings.TrimSpace(r.text[idx+1:]), Line: r.line})
 			} else {
-				cs.FieldInvs[fn] = append(cs.FieldInvs[fn], Clause{Expr: e, Src: strings.TrimSpace(r.text[idx+1:]), Line: r.line})
+				cs.FieldInvs[fn] = append(cs.FieldInvs[fn], Clause{Expr: e, Src: strings.TrimSpace(r.text[idx+1:]), Line: r.line, SafetyOnly: r.kw == "safetyinv"})
 			}
 		case "typeinv":
 			// typeinv T: expr over "self"
@@ -187,7 +188,7 @@ func (cs *ContractSet) loadFile(path string) error {
 				return fmt.Errorf("%s:%d: clause %q outside func block", path, r.line, r.kw)
 			}
 			switch r.kw {
-			case "requires", "ensures", "invariant", "decreases", "event", "revent", "step", "assume":
+			case "requires", "srequires", "ensures", "sensures", "invariant", "decreases", "event", "revent", "step", "assume":
 				c, err := mkClause(r)
 				if err != nil {
 					return err
@@ -212,7 +213,13 @@ func (cs *ContractSet) loadFile(path string) error {
 					cur.Events = append(cur.Events, c)
 				case "requires":
 					cur.Requires = append(cur.Requires, c)
+				case "srequires":
+					c.SafetyOnly = true
+					cur.Requires = append(cur.Requires, c)
 				case "ensures":
+					cur.Ensures = append(cur.Ensures, c)
+				case "sensures":
+					c.SafetyOnly = true
 					cur.Ensures = append(cur.Ensures, c)
 				case "invariant":
 					if curLoop == nil {
@@ -295,4 +302,26 @@ func splitTop(s string) []string {
 		parts = append(parts, strings.TrimSpace(s[start:]))
 	}
 	return parts
+}
+
+// safetyOnly reports whether the contract consists of safety-mode clauses only (srequires / sensures):
+// outside safety mode such a function is treated as if it had no contract (inlined or summarised).
+func (c *Contract) safetyOnly() bool {
+	if c == nil || c.HasMod || c.Trusted || c.NoInline || len(c.Modifies) > 0 || len(c.Events) > 0 || len(c.REvents) > 0 || len(c.Loops) > 0 || len(c.Assumed) > 0 {
+		return false
+	}
+	n := 0
+	for _, r := range c.Requires {
+		if !r.SafetyOnly {
+			return false
+		}
+		n++
+	}
+	for _, r := range c.Ensures {
+		if !r.SafetyOnly {
+			return false
+		}
+		n++
+	}
+	return n > 0
 }
